@@ -144,7 +144,7 @@ class Frame:
 
 class Interp:
     def __init__(self, prog, types, models, max_steps=400000):
-        self.prog = prog; self.T = types; self.models = models; self.max_steps = max_steps
+        self.prog = prog; self.T = types; self.models = models; self.max_steps = max_steps; self.max_depth = 150
         self._resolve_cache = {}
         self._upvar_cache = {}
         self._const_cache = {}
@@ -664,6 +664,16 @@ class Interp:
             fn = self.fn(fn)
         if fn.name.endswith('::get_atom'):
             return self._atom_literal(fn)
+        ctx.depth = getattr(ctx, 'depth', 0) + 1
+        if ctx.depth > self.max_depth:
+            ctx.depth = 0
+            raise StepLimit('call depth %d exceeded in %s (unbounded recursion)' % (self.max_depth, fn.name))
+        try:
+            return self._run(ctx, fn, args)
+        finally:
+            ctx.depth -= 1
+
+    def _run(self, ctx, fn, args):
         fr = Frame(fn)
         env = fr.env
         for name, v in zip(fn.params, args):
